@@ -569,6 +569,21 @@ class SReal:
         q = n.t / _bv(d)  # signed truncating division == int(n / d) for |n| < 2**52
         return SInt(q, -(m // d) - 1, m // d + 1)
 
+    def __round__(self, ndigits=None):
+        """round(): to the nearest integer, ties to the even one (CPython's float rounding; exact below 2**52)"""
+        if ndigits is not None:
+            raise EngineLimit("round() with digits")
+        n, f = self.num, self.frac
+        if abs(f.numerator) != 1:
+            raise EngineLimit("round() of a product with a non-unit fraction")
+        d = f.denominator * f.numerator
+        if d < 0:
+            n, d = -n, -d
+        if max(abs(n.lo), abs(n.hi)) >= 1 << 52:
+            raise EngineLimit("float division beyond the exactly representable range")
+        q, r = n // d, n % d  # floor quotient, remainder in [0, d)
+        return s_ite(r * 2 > d, q + 1, s_ite(r * 2 == d, q + (q & 1), q))
+
     def __mul__(self, o):
         if isinstance(o, (int, float)) and not isinstance(o, bool):
             return SReal(self.num, self.frac * Fraction(o).limit_denominator(10 ** 12))
